@@ -55,6 +55,7 @@ type gen struct {
 	// makes memory and log disagree, which Merge then turns into data loss)
 	noSMove bool
 	noSPop  bool
+	oneBucket bool
 	paged   bool
 	focus   map[string]string
 	images  int
@@ -196,10 +197,7 @@ func (g *gen) kvReads(t *hx.Tx, b string, full bool) {
 		if g.r.Intn(2) == 0 {
 			lim = len(kvKeys) + 1
 		}
-		if g.s.Opt.EntryIdxMode != nutsdb.HintBPTSparseIdxMode || g.paged {
-			// (C02 does not list PrefixSearchScan for sparse mode; C03 does)
-			t.PrefixSearchScan(b, []byte(p), reg, ms, bad, 0, lim)
-		}
+		t.PrefixSearchScan(b, []byte(p), reg, ms, bad, 0, lim)
 		if g.paged {
 			// C03: offset and limit over 0..n+1 (and ScanNoLimit)
 			for q := 0; q < 4; q++ {
@@ -256,7 +254,7 @@ func (g *gen) histKV() {
 	dir := fmt.Sprintf("%s/db-%d", g.c.Tmp, g.hist)
 	os.RemoveAll(dir)
 	g.u = &hx.Universe{KvBuckets: []string{"b1", "b2", "bk"}}
-	if mode == nutsdb.HintBPTSparseIdxMode {
+	if mode == nutsdb.HintBPTSparseIdxMode || g.oneBucket {
 		g.u.KvBuckets = []string{"b1"}
 	}
 	g.newSess(dir, mode, rw, seg)
@@ -1177,7 +1175,7 @@ func main() {
 				}
 			}
 			g.histKV()
-		case "product", "productkv", "productfill":
+		case "product", "productkv", "productfill", "productsparse":
 			g.histProduct(c.Family)
 		case "crash": // C10: every structure, process crash at every mutation point
 			g.histCrash(crashOpts{kinds: []string{"kv", "list", "set", "zset"}, sameMs: true, allTorn: g.c.AllTorn})
